@@ -72,7 +72,7 @@ func vpEq_NLV(a, b NaturalLanguageValues) bool {
 func vpZero_NLV(a NaturalLanguageValues) bool { return len(a) == 0 }
 
 // items: 0 IRI, 1 object with id, 2 object without id, 3 link, 4 actor, 5 list of two IRIs, 6 activity with object IRI,
-// 7 one-element list holding an IRI, 8 one-element list holding an object
+// 7 one-element list holding an IRI, 8 one-element list holding an object, 9 object with neither id nor type
 func vpMk_Item(shape int, tag byte) Item {
 	switch shape {
 	case 0:
@@ -91,8 +91,10 @@ func vpMk_Item(shape int, tag byte) Item {
 		return &Activity{ID: vpMkIRI(tag), Type: LikeType, Object: vpMkIRI(tag + 1)}
 	case 7:
 		return ItemCollection{vpMkIRI(tag)}
-	default:
+	case 8:
 		return ItemCollection{&Object{ID: vpMkIRI(tag), Type: NoteType, Summary: vpMk_NLV(0, tag)}}
+	default:
+		return &Object{Name: vpMk_NLV(0, tag)} // neither id nor type
 	}
 }
 func vpEq_Item(a, b Item) bool { return vpEqItem(a, b) }
@@ -215,7 +217,7 @@ func vpShapes(kind string) int {
 	case "NLV":
 		return 3
 	case "Item":
-		return 9
+		return 10
 	case "Items":
 		return 3
 	case "Time", "Duration", "Float":
